@@ -10,32 +10,32 @@ claimed = {
    "Every path of every stack operation (Add, the public Addition protocol, AutoCompact, CompactAll, Clean, Close, NewStack) obeys the commit-protocol rules LIST-WRITE/HELD/VALID/CONTENT/COMPLETE, POST-COMMIT-OK, FAIL-NO-EFFECT, LOCK-OWN and the up-to-date check really compares all names; compaction rewrites every record unmodified, reads the raw (tombstone-preserving) view of exactly its range and drops a ref only as a tombstone at the bottom (COMPACT-*, DT-TOMB-REF, ERR-PROPAGATE); every Table accessor of a sibling implementation derives its answer from the receiver (ACCESSOR). These per-handle rules are necessary conditions of linearizability; the step to the global property is the rely/guarantee argument of DESIGN §5 (trusted, on paper).",
    "fault-free filesystem outcome table; relies R1-R3, T1-T4; loop summarisation by generic iteration; order inside lists not tracked"),
  "C05": ("typestate / ordering rules on all paths (fsproto)", "DESIGN §3.2, §4 C05",
-   "On every path: table renamed into place (closed, update-index gate passed, written with the handle's hash id - HASH-TYPE - under a name drawn fresh per table - NAME-FRESH) before a list names it; unlink only of tables not named by the latest list this handle committed or read; Clean only under the validated lock. Necessary per-handle conditions of 'the list always names existing ordered tables'.",
+   "On every path: table renamed into place (closed, update-index gate passed, written with the handle's hash id - HASH-TYPE - under a name drawn fresh per table - NAME-FRESH) before a list names it; unlink only of tables not named by the latest list this handle committed or read; Clean only under the validated lock; commits are exclusive (LOCK-EXCL, LOCK-OWN). Necessary per-handle conditions of 'the list always names existing ordered tables'.",
    "same model as C04; validity of table contents is not decided"),
  "C06": ("crash-prefix safety of the filesystem event sequence (fsproto)", "DESIGN §3.2, §4 C06",
-   "A crash truncates one handle's event sequence; the rules PRE-COMMIT-INVISIBLE, ORDER-TABLE-FIRST, ORDER-DELETE-LAST, LIST-WRITE, LIST-COMPLETE, LIST-CONTENT make every prefix of every path leave the old or the new committed state.",
+   "A crash truncates one handle's event sequence; the rules PRE-COMMIT-INVISIBLE, ORDER-TABLE-FIRST, ORDER-DELETE-LAST, LIST-WRITE, LIST-COMPLETE, LIST-CONTENT, LOCK-OWN make every prefix of every path leave the old or the new committed state.",
    "process crashes only; rename atomic (T2)"),
  "C08": ("lock typestate on all paths incl. deferred closures (fsproto)", "DESIGN §3.2, §4 C08",
-   "Every lock creation is O_EXCL|O_CREATE; every remove/rename of a *.lock path happens while this operation holds the token it created; a failed acquirer never removes the lock; garbage collection of directory entries (Clean) removes only entries whose established suffix excludes lock files.",
+   "Every lock creation is O_EXCL|O_CREATE; every remove/rename of a *.lock path happens while this operation holds the token it created; a failed acquirer never removes the lock; garbage collection of directory entries (Clean) removes only entries whose established suffix excludes lock files; a second pass gives every exclusive create a third outcome (an error other than EEXIST) and checks that nothing is removed or renamed on a path on which the acquisition failed that way.",
    "atomicity of O_EXCL is trusted; releases inside loops are weak updates"),
  "C09": ("must-pass-through validation under the current lock tenure (fsproto)", "DESIGN §3.2, §4 C09",
    "No path renames the list or lets Clean remove a file without an up-to-date check (lengths and every name) in the current lock tenure; ErrLockFailure from Add implies reload; nothing (lock, temp file, table) is owned when ErrLockFailure is returned (STALE-NO-RESIDUE); the update-index gate uses the transaction's running next index.",
    "success of the retry (liveness) not decided"),
  "C10": ("reader ownership typestate in reload (fsproto)", "DESIGN §3.2, §4 C10",
-   "A reader that remains in the handle's stack at an exit is never closed on the way; the stored stack holds a reader for every name of the one list read; merged view rebuilt from it with deletions suppressed; tables are published only under names drawn fresh per table (reuse of open readers by name is sound only then); file handles are used positionally (HANDLE-KEEP).",
+   "A reader that remains in the handle's stack at an exit is never closed on the way; the stored stack holds a reader for every name of the one list read; merged view rebuilt from it with deletions suppressed; tables are published only under names drawn fresh per table (reuse of open readers by name is sound only then); file handles are used positionally (HANDLE-KEEP); commits are exclusive (LOCK-OWN), so a handle's view is never replaced by another handle's lock file.",
    "the 2.5 s retry deadline and timing are not modelled"),
  "C16": ("resource pairing at every exit (fsproto)", "DESIGN §3.2, §4 C16",
    "At every exit of every operation and protocol sequence no lock, temp file or unlisted new table is still owned; Close/Clean/post-compaction cleanup unlink only tables not named by the latest list (ORDER-DELETE-LAST); Close, Clean, CompactAll and the merged accessors are total on an empty stack (EMPTY-STACK).",
    "global quiescence of the directory follows from per-operation pairing plus C05; not enumerated"),
  "C07": ("decision table of the compaction rewrite loop + fsproto range partition", "DESIGN §3.3, §4 C07",
-   "Every path of one generic iteration of the rewrite loops either hands the unmodified record to AddRef/AddLog or drops it, and a drop implies (range starts at table 0 and IsDeletion) or expiry; the merged view is the raw view of exactly stack[first..last]; limits are (min first, max last); the new list keeps exactly the other tables plus the new one; a finished merge is published; a failed read or write of the rewrite fails the compaction (ERR-PROPAGATE).",
+   "Every path of one generic iteration of the rewrite loops either hands the unmodified record to AddRef/AddLog or drops it, and a drop implies (range starts at table 0 and IsDeletion) or expiry; the merged view is the raw view of exactly stack[first..last]; limits are (min first, max last); the new list keeps exactly the other tables plus the new one; a finished merge is published; a failed read or write of the rewrite fails the compaction (ERR-PROPAGATE); the compaction's writer gets the handle's configuration field by field (CONFIG-SAME).",
    "necessary conditions only: equality of the view before/after is not decided; record codec fidelity belongs to C01"),
  "C13": ("exact decision table of the expiry filter by valuation enumeration", "DESIGN §3.3, §4 C13, Appendix A.1 DT-EXPIRY",
-   "KEEP implies not expired and DROP implies expired (or bottom tombstone) for every valuation of the seven comparison atoms consistent with the order theory; refs are never dropped by expiry; an expiring compaction publishes its result.",
+   "KEEP implies not expired and DROP implies expired (or bottom tombstone) for every valuation of the seven comparison atoms consistent with the order theory; refs are never dropped by expiry; an expiring compaction publishes its result and works on the stack validated under the lock, unchanged between validation and rewrite (LIST-VALID, LIST-CONTENT).",
    "byte-for-byte preservation of kept entries is not decided (C01)"),
  "C03": ("decision tables + dataflow of the merged iterator", "DESIGN §3.3, §4 C03",
-   "Heap order, shadow loop, deletion suppression and the NewMerged precondition agree with the specification for every valuation of their comparison atoms; heap entry index = slot of the producing sub-iterator, slots never move, merged seek consults every table in stack order and returns a suppressing merged iterator; stack view suppresses, compaction view does not.",
-   "heap sift arithmetic and per-table iterator correctness are not decided"),
+   "Heap order, shadow loop, deletion suppression and the NewMerged precondition agree with the specification for every valuation of their comparison atoms; heap entry index = slot of the producing sub-iterator, slots never move, merged seek consults every table in stack order and returns a suppressing merged iterator; stack view suppresses, compaction view does not; the sift-down and sift-up loops of the heap keep the heap order (HEAP-SIFT: per generic iteration, over an uninterpreted rank with a transitive strict order); iterators of one view share no mutable state through it (VIEW-STATELESS).",
+   "per-table iterator correctness is not decided; heap index arithmetic is checked for the shapes 2i+1, 2i+2, (i-1)/2 only"),
  "C12": ("decision tables of the name validator / conflict walk + gate typestate (narrow)", "DESIGN §3.3, §4 C12",
    "Component validity table exact; acceptance requires validated name, negative prefix lookup and a complete ancestor walk; name check is a gate before a table is renamed into place; unchecked only with SkipNameCheck; validation view hides deletions; the prefix lookup answers no only after exhausting the iterator and never takes a record deleted by the transaction for the answer (LOOKUP-SOUND).",
    "completeness over histories and the cross-table check within one multi-table Addition are NOT decided"),
@@ -43,22 +43,22 @@ claimed = {
    "Nothing reachable from the read API writes through a shared Reader/Merged/block source/block reader, into block bytes, or to package-level state; file handles are used positionally only; shared types hold no per-caller objects. Immutability after construction is the design's race-freedom argument and is decided for all code paths.",
    "type-based sharing; user-supplied BlockSources and lock-protected caches are outside the rule"),
  "C11": ("sibling agreement + decision tables on the RefsFor / point-lookup paths", "DESIGN §3.4, §4 C11",
-   "Update-index delta written by the writer is added back on every path that yields a caller's RefRecord; every point lookup compares the name found; both filters yield exactly on value/peeled-value match; merged RefsFor re-checks against its own view; object index fed from value and peeled value; an object found in the index is never answered with the empty iterator (omitted position list = scan, OMITTED-FALLBACK); key strings are handled byte-wise in the codec (KEY-BYTEWISE); nilable iterators checked.",
+   "Update-index delta written by the writer is added back on every path that yields a caller's RefRecord; every point lookup compares the name found; both filters yield exactly on value/peeled-value match; merged RefsFor re-checks against its own view; object index fed from value and peeled value; an object found in the index is never answered with the empty iterator (omitted position list = scan, OMITTED-FALLBACK); key strings are handled byte-wise in the codec (KEY-BYTEWISE); the reader does not assume block alignment of the listed positions (ALIGN-FREE); the writer stores a position list whole or not at all (OBJ-LIST-WHOLE); nilable iterators checked.",
    "exactness of the result set for given data and object-index contents are not decided"),
  "C02": ("writer index typestate (verified summaries) + seek decision tables", "DESIGN §3.1, §3.3, §4 C02",
-   "No index block is dropped unflushed and no pending index entry survives a section on any path of the writer; index entries record the block's start offset; in-block scan, restart predicate, linear block skip and index descent agree with their specification for all valuations; reads from a table iterator roll over blocks; nothing on the read path writes state a later seek on the same Reader could observe (SEEK-STATELESS).",
+   "No index block is dropped unflushed and no pending index entry survives a section on any path of the writer; index entries record the block's start offset; in-block scan, restart predicate, linear block skip and index descent agree with their specification for all valuations; reads from a table iterator roll over blocks; nothing on the read path writes state a later seek on the same Reader could observe (SEEK-STATELESS); a block is opened from a read at least as wide as the table's block size so that the padding probe exists (READ-WIDTH); the reader never tests offsets for alignment to the block size (ALIGN-FREE).",
    "necessary conditions only: equality of seek+scan with the scan suffix for a given table is not decided (offset/padding arithmetic)"),
  "C01": ("writer gates, deletion preservation, restart cap, encode/decode wire-sequence agreement and output byte accounting by path simulation", "DESIGN §3.3, §3.4, §4 C01",
-   "A deletion record reaches the block writer as a deletion; IsDeletion holds exactly when every payload field is empty; refs are written only inside the declared update-index limits and keys strictly ascending; restart points are recorded only while the 16-bit count has room and only for uncompressed keys; for every record kind and value type the wire events written by encode equal those read by decode, key codec constants agree (WIRE-AGREE, KEY-BITS, LOGKEY-CODEC); the output sink reports exactly bytes written plus owed padding and pads with the pending length of zero bytes (OUT-ACCOUNT); codec strings handled byte-wise (KEY-BYTEWISE); update-index delta agreement (DELTA under C11).",
+   "A deletion record reaches the block writer as a deletion; IsDeletion holds exactly when every payload field is empty; refs are written only inside the declared update-index limits and keys strictly ascending; restart points are recorded only while the 16-bit count has room and only for uncompressed keys; for every record kind and value type the wire events written by encode equal those read by decode, key codec constants agree (WIRE-AGREE, KEY-BITS, LOGKEY-CODEC); a block is opened from a read at least as wide as the table's block size (READ-WIDTH) and a scan does not depend on earlier reads through the same Reader (SCAN-STATELESS); the output sink reports exactly bytes written plus owed padding and pads with the pending length of zero bytes (OUT-ACCOUNT); codec strings handled byte-wise (KEY-BYTEWISE); update-index delta agreement (DELTA under C11).",
    "round-trip equality of a given record set (block boundary, padding, varint and zlib arithmetic) is not decided"),
  "C14": ("layout and constants vs a frozen table transcribed from the format specification + wire sequences, index typestate, byte accounting by path simulation", "DESIGN §3.4, §4 C14, Appendix A.3",
-   "Block type bytes, magic, header/footer sizes and field layout, footer field order and wiring, object-id bits, CRC kind, restart/length widths, hash ids and sizes, restart cap and file naming extracted from the Go sources equal the specification table; size identities between structs and size functions hold; writer and reader serialise the same struct types; the wire sequence of each record kind equals the one the format prescribes (WIRE-SPEC); every flushed block gets exactly one index entry with its start offset and no entry leaks across sections (NO-DROP, SECTION-CLEAN, INDEX-OFFSET); a rejected record leaves the block writer unchanged so index entries name the last key really in the block (ADD-ATOMIC); padding has exactly the owed length and is zero (OUT-ACCOUNT).",
+   "Block type bytes, magic, header/footer sizes and field layout, footer field order and wiring, object-id bits, CRC kind, restart/length widths, hash ids and sizes, restart cap and file naming extracted from the Go sources equal the specification table; size identities between structs and size functions hold; writer and reader serialise the same struct types; the wire sequence of each record kind equals the one the format prescribes (WIRE-SPEC); every flushed block gets exactly one index entry with its start offset and no entry leaks across sections (NO-DROP, SECTION-CLEAN, INDEX-OFFSET); a rejected record leaves the block writer unchanged so index entries name the last key really in the block (ADD-ATOMIC); padding has exactly the owed length and is zero (OUT-ACCOUNT); an object record's position list is the complete collected list or empty (OBJ-LIST-WHOLE).",
    "that a particular emitted file parses; object-index contents; CRC value"),
  "C15": ("Go layout table vs the same table extracted from the C sources (clang AST / preprocessor, parsed only)", "DESIGN §3.4, §4 C15",
    "About twenty constants and layouts (block types, sizes, header layout, footer order on the writing and the parsing side, object-id bits, hash ids, restart cap, default block size, stack file naming) agree entry by entry between c/ and the Go package; the Go list reader tolerates the C list layout.",
    "behavioural equivalence of the implementations is not decided; narrow claim"),
  "C18": ("panic reachability vs allow-table, nil contracts, bounds obligations in a linear-inequality domain over simulated paths", "DESIGN §3.6, §4 C18, Appendix B",
-   "No input-controlled explicit panic is reachable from the read API; nilable results are checked before use; all ~300 index/slice/allocation obligations of the 22 decoder and opener functions are discharged on every path from linear facts (loop invariants checked inductively, value-changing conversions opaque); inflated data is read through a limit; the index descent checks the type of the block an index entry leads to (DT-DESCEND, precondition of an allow-table entry).",
+   "No input-controlled explicit panic is reachable from the read API; nilable results are checked before use; all ~300 index/slice/allocation obligations of the 22 decoder and opener functions are discharged on every path from linear facts (loop invariants checked inductively, value-changing conversions opaque, unsigned differences opaque unless shown not to wrap); a nilable result is also not handed to a function that dereferences the parameter; inflated data is read through a limit; the index descent checks the type of the block an index entry leads to (DT-DESCEND, precondition of an allow-table entry).",
    "termination on hostile inputs is NOT decided; obligations outside the decoder set are not generated; preconditions and field invariants listed in the evidence are assumed"),
 }
 not_applicable_reason = {
